@@ -65,7 +65,7 @@ def verify_function(program, lib, qual, timeout_ms=10000, only=None, shard=None,
         goals = smt.split_goal(ob.goal)
         for gi, g in enumerate(goals):
             name = ob.name if len(goals) == 1 else "%s/%d" % (ob.name, gi)
-            ident = "%s::%s@%s" % (qual, name, ob.lineno)
+            ident = "%s::%s" % (qual, name)
             k = seen.get(ident, 0)
             seen[ident] = k + 1
             ident_k = ident if k == 0 else "%s#%d" % (ident, k)
